@@ -173,7 +173,10 @@ def check_case(ctx: Ctx, case) -> None:
                 ("lf-path", lambda: _parse_path(text.encode("utf-8"))),
                 ("crlf-path", lambda: _parse_path(crlf.encode("utf-8"))),
                 ("bom-lf-path", lambda: _parse_path(b"\xef\xbb\xbf" + text.encode("utf-8"))),
-                ("bom-crlf-path", lambda: _parse_path(b"\xef\xbb\xbf" + crlf.encode("utf-8")))]
+                ("bom-crlf-path", lambda: _parse_path(b"\xef\xbb\xbf" + crlf.encode("utf-8"))),
+                # the file ends right behind the last '}' (no line end after the last line): still every section
+                ("lf-no-final-newline", lambda: L.Chart.from_file(io.StringIO(text[:-1]))),
+                ("crlf-no-final-newline-path", lambda: _parse_path(crlf[:-2].encode("utf-8")))]
     for name, fn in variants:
         try:
             other = fn()
